@@ -99,8 +99,10 @@ func walk[S, T any](ctx context.Context, g *graph[S], t *traversal[S, T]) error 
 		for {
 			select {
 			case <-ctx.Done():
+				verifYield("coord.ctxdone", "")
 				return nil
 			case node := <-nodeCh:
+				verifYield("coord.recv", node.key)
 				expect--
 				if expect == 0 {
 					return nil
@@ -122,23 +124,30 @@ func walk[S, T any](ctx context.Context, g *graph[S], t *traversal[S, T]) error 
 }
 
 func (t *traversal[S, T]) visit(ctx context.Context, eg *errgroup.Group, node *vertex[S], nodeCh chan *vertex[S]) {
+	verifYield("ready", node.key)
 	if !t.ready(node) {
 		// don't visit this service yet as dependencies haven't been visited
 		return
 	}
+	verifYield("enter", node.key)
 	if !t.enter(node) {
 		// another worker already acquired this node
 		return
 	}
+	verifYield("spawn", node.key)
+	defer verifYield("spawned", node.key)
 	eg.Go(func() error {
 		var (
 			err    error
 			result T
 		)
+		verifYield("worker.start", node.key)
 		if !t.skip(node) {
 			result, err = t.visitor(ctx, node.key, *node.service)
 		}
+		verifYield("worker.done", node.key)
 		t.done(node, result)
+		verifYield("worker.send", node.key)
 		nodeCh <- node
 		return err
 	})
